@@ -19,7 +19,7 @@ Dispose == /\ IsEv("dispose") /\ ~gone
               CASE e.kind = "release" -> E.exc = "" /\ E.freed = 1 /\ E.fin <= 1 /\ gone' = TRUE        \* released, exactly once
                 [] e.kind = "ignored" -> E.exc = "" /\ E.freed = 0 /\ E.same = 1 /\ gone' = FALSE
                 [] e.kind = "ok" -> E.exc = "" /\ E.freed = 0 /\ gone' = FALSE
-                [] e.kind = "refuse" -> E.exc \in e.excs /\ E.freed = 0 /\ E.same = 1 /\ gone' = FALSE     \* raised, object intact
+                [] e.kind = "refuse" -> E.exc \in e.excs /\ E.freed = 0 /\ E.same = 1 /\ E.fin = 0 /\ gone' = FALSE     \* raised, object intact
            /\ UNCHANGED <<ocls, oreg>>
 (* heap objects deleted by their owner's destructor while the collector sweeps: each is finalised at most once, none twice,
    and no release of an already released block is attempted (the library reports that as ValueError) *)
